@@ -131,6 +131,7 @@ FAMILIES = {
     "mech": lambda: pp.MomentumBalance,
     "poro": lambda: pp.Poromechanics,
     "damage": _damage_base,
+    "mech_lin": lambda: pp.MomentumBalance,  # without fractures: flagged linear by the library; run without injected faults
 }
 # admissible (fracture set, cell size) pairs per family, found by probing: configurations for which the unfaulted model
 # solves (mechanics with the through-going fracture at x = 0.5 and two cells per direction is singular)
@@ -139,6 +140,7 @@ FAMILY_GEOMETRY = {
     "mech": [([1], 0.5), ([0], 0.25), ([1], 0.25)],  # without fractures the momentum balance is a *linear* problem: a failed solve raises by design
     "poro": [([1], 0.5), ([], 0.5), ([1], 0.25)],
     "damage": [([1], 0.5), ([1], 0.25)],
+    "mech_lin": [([], 0.5), ([], 0.25)],
 }
 _CLASSES: dict = {}
 
@@ -237,6 +239,9 @@ class DriverSim:
             self.p_fail = ch.choice([0, 1, 3, 6])  # /10
             self.horizon = ch.choice([MAX_ATTEMPTS, 4, 10, 25])
             self.aim = ch.flag()
+            if self.family == "mech_lin":
+                self.p_fail = 0  # a failed solve of a linear problem raises by design (outside the statements)
+                self.predictor = False
         self.tr.emit("config", {"family": self.family, "cell": self.cell_size, "fracs": self.fracs, "ts_depth": self.ts_depth, "it_depth": self.it_depth,
                                 "tm": {k: (list(v) if isinstance(v, (list, tuple)) else v) for k, v in self.tm_kw.items()},
                                 "max_iter": self.max_iter, "div_tol": float(self.div_tol), "res_tol": float(self.res_tol), "predictor": self.predictor, "limiter": self.limiter, "kinds": self.kinds, "p_fail": self.p_fail,
